@@ -79,11 +79,15 @@ where
       return observer;
     }
 
-    let mut unsubscribers = self.unscribers.write().unwrap();
-    unsubscribers.insert(
+    self.unscribers.write().unwrap().insert(
       serial.clone(),
       FunctionWrapper::new(move |_| o_unsub.unsubscribe()),
     );
+    if !self.subscriber.is_subscribed() {
+      // finalize() ran on another thread while this upstream was being
+      // registered (it ends the subscriber before it sweeps): tear it down now
+      self.upstream_abort_observe(&serial);
+    }
     observer
   }
 
@@ -136,15 +140,16 @@ where
   }
 
   pub fn finalize(&self) {
-    // take the registered upstreams out in one step: an upstream registered by
-    // another thread meanwhile must not be dropped from the map unswept
+    // first end the subscriber (also after a terminal: this releases its
+    // remaining callbacks and cuts the subscriber -> teardown -> controller ->
+    // subscriber cycle), so that an upstream registered concurrently sees it
+    self.subscriber.unsubscribe();
+    // then take the registered upstreams out in one step: an upstream registered
+    // by another thread meanwhile must not be dropped from the map unswept
     let unscribers = std::mem::take(&mut *self.unscribers.write().unwrap());
     unscribers.iter().for_each(|x| {
       x.1.call(());
     });
-    // also after a terminal: releases the subscriber's remaining callbacks and
-    // cuts the subscriber -> teardown -> controller -> subscriber cycle
-    self.subscriber.unsubscribe();
     let on_finalize = &mut *self.on_finalize.write().unwrap();
     if let Some(f) = on_finalize {
       f.call(());
